@@ -1,6 +1,7 @@
 import Model.Compress
 import Model.CompressHeap
 import Model.CompressRecv
+import Model.CompressSnappy
 import Driver.Util
 namespace Driver.C18
 open Util Compress
@@ -481,6 +482,31 @@ def negosStep (name : Option String) (numConns : Nat) (s : NegosSt) (tok : Strin
     | none => (s, "bad-step")
   | _ => (s, "bad-step")
 
+
+/-- `oklen:<n>` | `err` | `none` as a LENGTH (never expanded to bytes: op `big` runs at 256 MiB) -/
+def parseLenRes (s : String) : Option (Option (Except Unit Nat)) :=
+  if s == "none" then some none
+  else if s == "err" then some (some (.error ()))
+  else if s.startsWith "oklen:" then (s.drop 6).toString.toNat?.map fun n => some (.ok n)
+  else none
+
+/-- ops `big` / `bigx`: build then read one frame, through lengths only (`finishLen`, `readLen`:
+    `C18_finish_by_length`, `C18_read_by_length`) -/
+def bigOp (comp : String) (ver hflag bodyLen : Nat) (enc dec : Option (Except Unit Nat)) : String :=
+  let hs := if (UInt8.ofNat ver &&& 0x7f) > 2 then 9 else 8
+  let flag := (UInt8.ofNat hflag &&& flagCompress) == flagCompress
+  let has := comp != "none"
+  let encA : Option (Except Unit Nat) := if has then some (enc.getD (.error ())) else none
+  match finishLen hs (hs + bodyLen) flag encA with
+  | .error e => "build=" ++ errName e
+  | .ok l =>
+    let field := l - hs
+    let decA : Option (Except Unit Nat) := if has then some (dec.getD (.error ())) else none
+    let rd := match readLen (toInt32 (field % 4294967296)) field flag decA with
+      | .error e => errName e
+      | .ok n => s!"ok:len={n},same=true"
+    s!"build=ok:len={l},field={field % 4294967296} read={rd}"
+
 def step (_ : Unit) (ws : List String) : Unit × String :=
   ((), match ws with
   | ["req", kind, comp, ver, extra, stream, body, encres, _, _] =>
@@ -539,6 +565,27 @@ def step (_ : Unit) (ws : List String) : Unit × String :=
       | .ok y => "ok:" ++ canon y
       | .error _ => "err"
     | _, _ => "bad-op"
+  | ["snapdec", data] =>
+    -- the snappy block format's decoder (Model/CompressSnappy.lean) on arbitrary bytes
+    match parseBytes data with
+    | some d => (match snappyDecode d with | .ok b => "ok:" ++ canon b | .error _ => "err")
+    | none => "bad-op"
+  | ["snaprt", body, z] =>
+    -- what golang/snappy's Encode produced for `body`, decoded by the format's decoder, must be `body`
+    match parseBytes body, parseBytes z with
+    | some b, some z =>
+      (match snappyDecode z with
+       | .ok d => if d == b then "ok:" ++ canon b else "format-mismatch:" ++ canon d
+       | .error _ => "format-reject")
+    | _, _ => "bad-op"
+  | ["big", comp, ver, hflag, bodyLen, _, enc, dec] =>
+    match ver.toNat?, hflag.toNat?, bodyLen.toNat?, parseLenRes enc, parseLenRes dec with
+    | some v, some hf, some n, some e, some d => bigOp comp v hf n e d
+    | _, _, _, _, _ => "bad-op"
+  | ["bigx", comp, ver, hflag, bodyLen, _, enc, dec] =>
+    match ver.toNat?, hflag.toNat?, bodyLen.toNat?, parseLenRes enc, parseLenRes dec with
+    | some v, some hf, some n, some e, some d => bigOp comp v hf n e d
+    | _, _, _, _, _ => "bad-op"
   | ["hyp", _, _] => "roundtrip"
   | ["lz4rt", body] =>
     -- C18_lz4_delivered: Encode succeeds, prefix = length, an independent block decoder and Decode give the body back
